@@ -252,9 +252,24 @@ func ruleVD5(c *Ctx) {
 }
 
 // mintedInCallback: v derives from a newShortID call in the same function (through a map filled there).
-func (c *Ctx) mintedInCallback(v ssa.Value, nsid *ssa.Function) bool {
+func (c *Ctx) mintedInCallback(v ssa.Value, nsid *ssa.Function) bool { return c.mintedD(v, nsid, 0) }
+
+func (c *Ctx) mintedD(v ssa.Value, nsid *ssa.Function, d int) bool {
 	v = resolve(v)
 	if valueFromCallTo(v, nsid) {
+		return true
+	}
+	if prm, ok := v.(*ssa.Parameter); ok && d < 4 {
+		// an id handed to a helper/method (addEdge(fromID, toID)): minted at every call site
+		args := c.argValues(prm.Parent(), paramIndex(prm))
+		if len(args) == 0 {
+			return false
+		}
+		for _, a := range args {
+			if !c.mintedD(a, nsid, d+1) {
+				return false
+			}
+		}
 		return true
 	}
 	// lookup in a local map whose stored values derive from newShortID
@@ -289,18 +304,12 @@ func (c *Ctx) mintedInCallback(v ssa.Value, nsid *ssa.Function) bool {
 
 // mapValuesMinted: every value stored into the map derives from the id generator.
 func (c *Ctx) mapValuesMinted(m ssa.Value, nsid *ssa.Function) bool {
-	refs := m.Referrers()
-	if refs == nil {
-		return false
-	}
 	found := false
-	for _, r := range *refs {
-		if mu, ok := r.(*ssa.MapUpdate); ok && mu.Map == m {
-			if !valueFromCallTo(mu.Value, nsid) {
-				return false
-			}
-			found = true
+	for _, mu := range c.mapUpdatesOf(m) {
+		if !valueFromCallTo(mu.Value, nsid) {
+			return false
 		}
+		found = true
 	}
 	return found
 }
